@@ -1,4 +1,4 @@
-\* U1d: life cycle, 2 uploads x 2 messages x 2 topics x 2 users x 2 GC runs, exhaustively.
+\* U1d: life cycle, exhaustively: 2 uploads x 1 message x 2 topics x 2 users, any number of GC runs.
 CONSTANTS
   MaxUp = 2
   MaxMsg = 1
